@@ -5,6 +5,7 @@ import (
 	"errors"
 	"fmt"
 	"github.com/segmentio/kafka-go/protocol"
+	"net"
 	"sort"
 	"time"
 
@@ -138,6 +139,14 @@ func queriesScenario(s *Sim, params map[string]string) {
 
 	tr := &kafka.Transport{Dial: n.Dialer("queries"), ClientID: "queries", MetadataTTL: 30 * time.Second, DialTimeout: time.Second}
 	client := &kafka.Client{Addr: kafka.TCP(cl.Brokers[0].Addr()), Transport: tr, Timeout: 5 * time.Second}
+	// per-request addresses: the Client's own default address names a host
+	// nobody listens on and every request says where it wants to go (the
+	// request's address takes precedence)
+	var reqAddr net.Addr
+	if t.Intn("reqaddr", 4) == 0 {
+		reqAddr = kafka.TCP(cl.Brokers[0].Addr())
+		client.Addr = kafka.TCP("elsewhere:9092")
+	}
 	bad := func(rule, f string, a ...any) { s.Fail("C19", rule, f, a...) }
 
 	leaderDown := func(p *Partition) bool { return p.Leader == downBroker }
@@ -148,7 +157,7 @@ func queriesScenario(s *Sim, params map[string]string) {
 			if downBroker != 0 {
 				// take the broker down after the client has learnt the layout
 				ctx, cancel := context.WithTimeout(context.Background(), 3*time.Second)
-				client.Metadata(ctx, &kafka.MetadataRequest{})
+				client.Metadata(ctx, &kafka.MetadataRequest{Addr: reqAddr})
 				cancel()
 				if cl.Broker(downBroker).Up {
 					cl.SetBrokerUp(cl.Broker(downBroker), false)
@@ -160,7 +169,11 @@ func queriesScenario(s *Sim, params map[string]string) {
 				tn := topics[t.Intn("work", len(topics))]
 				ps := cl.Topics[tn].Parts
 				p := ps[t.Intn("work", len(ps))]
-				switch t.Intn("work", 7) {
+				op := t.Intn("work", 7)
+				if reqAddr != nil && op == 2 {
+					op = 0 // (ConsumerOffsets has no address of its own)
+				}
+				switch op {
 				case 0: // Client.ListOffsets over many topics / partitions / leaders / timestamps
 					req := map[string][]kafka.OffsetRequest{}
 					type q struct {
@@ -204,7 +217,7 @@ func queriesScenario(s *Sim, params map[string]string) {
 					// (half of the calls read committed: the last offset of a
 					// partition with an open transaction is its last stable offset)
 					iso := kafka.IsolationLevel(t.Intn("work", 2))
-					res, err := client.ListOffsets(ctx, &kafka.ListOffsetsRequest{Topics: req, IsolationLevel: iso})
+					res, err := client.ListOffsets(ctx, &kafka.ListOffsetsRequest{Addr: reqAddr, Topics: req, IsolationLevel: iso})
 					if err != nil {
 						// a total failure is only legitimate if every queried leader is unreachable / failing
 						all := true
@@ -305,7 +318,7 @@ func queriesScenario(s *Sim, params map[string]string) {
 							req[tn] = []int{int(p.ID)}
 						}
 					}
-					res, err := client.OffsetFetch(ctx, &kafka.OffsetFetchRequest{GroupID: g.ID, Topics: req})
+					res, err := client.OffsetFetch(ctx, &kafka.OffsetFetchRequest{Addr: reqAddr, GroupID: g.ID, Topics: req})
 					if err != nil || res.Error != nil {
 						break
 					}
@@ -373,7 +386,7 @@ func queriesScenario(s *Sim, params map[string]string) {
 							want[tp{x, pp.ID}] = o
 						}
 					}
-					res, err := client.OffsetCommit(ctx, &kafka.OffsetCommitRequest{GroupID: gid, GenerationID: -1, Topics: creq})
+					res, err := client.OffsetCommit(ctx, &kafka.OffsetCommitRequest{Addr: reqAddr, GroupID: gid, GenerationID: -1, Topics: creq})
 					if err != nil {
 						break
 					}
@@ -405,7 +418,7 @@ func queriesScenario(s *Sim, params map[string]string) {
 						}
 					}
 				case 4: // Metadata: leaders, replicas, isr, partition lists
-					res, err := client.Metadata(ctx, &kafka.MetadataRequest{Topics: []string{tn}})
+					res, err := client.Metadata(ctx, &kafka.MetadataRequest{Addr: reqAddr, Topics: []string{tn}})
 					if err != nil {
 						break
 					}
@@ -572,5 +585,13 @@ func queriesScenario(s *Sim, params map[string]string) {
 		}
 		return closed
 	})
-	s.AtEnd(func() { n.Shutdown() })
+	s.AtEnd(func() {
+		if reqAddr != nil {
+			s.Count("client-with-per-request-addresses")
+			if k := n.Dialed["elsewhere:9092"]; k > 0 {
+				bad("R6-request-addr", "every request named %v as its address, yet the client dialled its own default address elsewhere:9092 %d times", reqAddr, k)
+			}
+		}
+		n.Shutdown()
+	})
 }
